@@ -11,6 +11,9 @@ CHECKS = {
 CHECKS['C03'] = dict(text='Every ASCII string up to the stated length is pushed symbolically through the real Parse, String, MarshalControl/UnmarshalControl and MarshalText/UnmarshalText (go/ssa, path enumeration pruned by z3): on every accepted path the three renderings must re-parse to the identical value; grammar templates with symbolic leaves must be accepted with exactly their parts; each near-miss class of the statement, given as a template with symbolic witnesses, must be rejected by Parse, UnmarshalControl and UnmarshalText.',
              note='Trusted: go/ssa, the interpreter and its contract models (fmt.Sprintf %d/%s, strings.Index family, unicode.IsSpace/IsDigit tables, UTF-8 decoding case split), z3. fmt.Errorf is an opaque non-nil error.',
              ref='DESIGN.md 2/C03')
+CHECKS['C05'] = dict(text='Every byte string (all 256 values per position) up to the stated length is executed symbolically through the real dependency.Parse, the String()/MarshalControl renderers and Parse/UnmarshalControl again (go/ssa, path enumeration; branch feasibility by per-byte domains and z3); on every accepted path the re-parse must succeed and be structurally identical. Likewise ParseArch/String/ParseArch and UnmarshalControl/MarshalControl for every ASCII architecture name up to its bound.',
+             note='Trusted: go/ssa, the interpreter and its contract models (strings.SplitN/Join, UTF-8 encoding of string(rune)), z3. Structural equality is the harness function eqDependency.',
+             ref='DESIGN.md 2/C05')
 NA = {}
 props = [json.loads(l) for l in open(os.path.join(V, 'properties.jsonl'))]
 checks = []
